@@ -293,6 +293,52 @@ let () =
               | "I" -> Printf.printf "%s ok from=%s\n" id (show_state f)
               | "D" -> Printf.printf "%s ok from=%s to=%s ch=%s\n" id (show_state f) (show_state t) (atoms d)
               | _ -> Printf.printf "%s ok ch=%s\n" id (atoms d)))
+        | "excludex" ->
+          (* <op R|S<k>> <li> <lf> <npats> <hex>... <xrealm> *)
+          let op = next () in
+          let li = next_bool () in
+          let lf = next_bool () in
+          let np = next_int () in
+          let pats = times np next_str in
+          let strs () = let n = next_int () in times n next_str in
+          let objs () = let n = next_int () in times n (fun () ->
+            match next () with
+            | "~" -> let i = next_int () in { o_spec = None; o_id = n_of_int i }
+            | "N" -> let t = next_str () in let nm = next_str () in let i = next_int () in { o_spec = Some (t, nm); o_id = n_of_int i }
+            | s -> failwith ("obj " ^ s)) in
+          let robjs = objs () in
+          let ns = next_int () in
+          let schemas = times ns (fun () ->
+            let name = next_str () in
+            let nt = next_int () in
+            let tabs = times nt (fun () -> let t = parse_table () in let g = strs () in { xt_t = t; xt_trigs = g }) in
+            let nv = next_int () in
+            let views = times nv (fun () -> let n = next_str () in let c = strs () in let g = strs () in { v_name = n; v_cols = c; v_trigs = g }) in
+            let funcs = strs () in
+            let procs = strs () in
+            let o = objs () in
+            { xs_name = name; xs_tables = tabs; xs_views = views; xs_funcs = funcs; xs_procs = procs; xs_objects = o }) in
+          let r = { xr_objects = robjs; xr_schemas = schemas } in
+          let res =
+            if op = "R" then excludeRealmX (li, lf) r pats
+            else
+              let k = int_of_string (String.sub op 1 (String.length op - 1)) in
+              excludeSchemaX (li, lf) r (Stdlib.List.nth schemas k) pats in
+          let h l = String.concat "," (Stdlib.List.map hexb l) in
+          let show_objs l = String.concat "," (Stdlib.List.map (fun o ->
+            match o.o_spec with
+            | Some (t, n) -> Printf.sprintf "%s:%s#%d" (hexb t) (hexb n) (int_of_n o.o_id)
+            | None -> Printf.sprintf "~#%d" (int_of_n o.o_id)) l) in
+          (match res with
+           | EErr e -> Printf.printf "%s err=%s\n" id (show_err e)
+           | EOk r' ->
+             let ss = Stdlib.List.map (fun s ->
+               Printf.sprintf "S(%s)[%s|g=%s|%s|F=%s|P=%s|O=%s]" (hexb s.xs_name)
+                 (String.concat " " (Stdlib.List.map (fun t -> show_table t.xt_t) s.xs_tables))
+                 (String.concat ";" (Stdlib.List.map (fun t -> hexb t.xt_t.t_name ^ ":" ^ h t.xt_trigs) s.xs_tables))
+                 (String.concat " " (Stdlib.List.map (fun v -> Printf.sprintf "V(%s){c=%s;g=%s}" (hexb v.v_name) (h v.v_cols) (h v.v_trigs)) s.xs_views))
+                 (h s.xs_funcs) (h s.xs_procs) (show_objs s.xs_objects)) r'.xr_schemas in
+             Printf.printf "%s ok O=%s %s\n" id (show_objs r'.xr_objects) (String.concat " " ss))
         | m -> failwith ("mode " ^ m)
       end
     done
